@@ -121,7 +121,7 @@ def job(j):
             for seq in itertools.product(alphabet, repeat=L):
                 h = [list(e) for e in seq]
                 n_reg = None
-                obs, env, sv, b = hs.run_history(program, h, solver_kw=skw)
+                obs, env, sv, b = hs.run_history(program, h, solver_kw=skw, leaves=leaves, steer="lazy")
                 res["runs"] += 1
                 res["calls"] += len(h)
                 res["outcomes"].add(repr([(o["kind"], o.get("timing")) for o in obs]))
@@ -178,7 +178,7 @@ def replay(inst):
     skw = inst.get("solver") or {}
     leaves, *_ = hs.admitted_set(program)
     r = job({"program": program, "solver": skw, "menu": [], "depth": 0, "tier": "quick", "family": "replay"})
-    obs, env, sv, b = hs.run_history(program, inst["history"], solver_kw=skw)
+    obs, env, sv, b = hs.run_history(program, inst["history"], solver_kw=skw, leaves=leaves, steer="lazy")
     objective = obj_fn(program)
     interrupted = skw.get("max_iter") is not None or skw.get("optimize_priority") == "lex"
     bad, p = judge(program, leaves, obs, objective, interrupted)
